@@ -36,12 +36,12 @@ Lemma serde_defaults_documented :
 Proof. reflexivity. Qed.
 
 (* the model's treatment of an omitted threshold is the documented default *)
-Lemma omitted_threshold_is_default num (o : NumOps num) U K minpos (c : spdc_cfg num) s nf :
-  pc_threshold (c_pump c) = None -> try_as_spdc_steps o U K minpos c = Ok (s, nf) -> s_threshold s = nQ o spec_spectrum_threshold.
+Lemma omitted_threshold_is_default num (o : NumOps num) U K minpos rj (c : spdc_cfg num) s nf :
+  pc_threshold (c_pump c) = None -> try_as_spdc_steps o U K minpos rj c = Ok (s, nf) -> s_threshold s = nQ o spec_spectrum_threshold.
 Proof.
   intros Hn. unfold try_as_spdc_steps.
   destruct (signal_step o K c); cbn [bind]; try discriminate.
-  destruct (poling_step o K minpos c _); cbn [bind]; try discriminate.
+  destruct (poling_step o K minpos rj c _); cbn [bind]; try discriminate.
   destruct (theta_step o K c _ _); cbn [bind]; try discriminate.
   destruct (idler_step o K c _ _ _); cbn [bind]; try discriminate.
   unfold finish_spdc. rewrite Hn. intros H. inversion H. reflexivity.
